@@ -1,5 +1,6 @@
 import RepeVerif.Lemmas.OffReader
 import RepeVerif.Gen.Offreader
+import RepeVerif.Props.C03
 /-!
 # C16 — Off-reader handlers are capped, never block the reader or kill the connection
 
@@ -258,5 +259,76 @@ theorem wrapped_route_is_off_reader (hi : Inv s) (a : Arrival) (hr : a.route = .
   refine ⟨by simp [effectiveOff, hr, specOffFacts], ?_⟩
   rw [step_spec s hi.1, step_spec s hi.1]
   simp [stepSpec, hr]
+
+/-! ### composition with C03 (dispatch): the off-reader path of both models is the same path -/
+
+/-- The part of a response message this model keeps. -/
+def respOf (m : Message) : Resp := ⟨m.header.id, m.header.ec⟩
+
+/-- How this model's exit kinds read a handler outcome of C03's model. -/
+def exitOf : HOut → ExitKind
+  | .ok _ => .ret
+  | .err c _ => .err c
+
+/-- **C03 ∘ C16.** An admitted, non-notify request whose handler *returns* (a message of its own, or an
+error): the response C03's `respond … .wsOff` computes — request id, query stamp, error mapping through
+`errorLike` — is, in its id and error code, exactly the entry this model's `exit` step appends to the
+outbound FIFO; and it is C03's single response for that request. (`hok`: a handler's own message
+carries the request id and no error code — the built-in handlers' contract, cf. `C03.query_echo`.) -/
+theorem admitted_exit_is_c03_response (hi : Inv s) (req : Req) (utf8 found : Bool) (hview howned : HOut)
+    (r : Run) (rest : List Run)
+    (hroute : route Gen.codes req utf8 found = .dispatch) (hn : req.isNotify = false)
+    (ht : takeRun req.header.id s.running = some (r, rest)) (hrn : r.notify = false)
+    (hok : ∀ m, howned = .ok m → m.header.id = req.header.id ∧ m.header.ec = 0) :
+    ∃ m, (respond Gen.codes .wsOff req utf8 found hview howned).1 = some m ∧
+      (respond Gen.codes .wsOff req utf8 found hview howned).2 = 1 ∧
+      m.header.id = req.header.id ∧
+      (step Gen.offFacts s (.exit req.header.id (exitOf howned))).outbound = s.outbound ++ [respOf m] := by
+  have hstep := (exit_answers_once s hi req.header.id (exitOf howned) r rest ht).1
+  rw [hrn] at hstep
+  have hcnt : (respond Gen.codes .wsOff req utf8 found hview howned).2 = 1 := by
+    rw [C03.handler_once, hroute]; rfl
+  cases howned with
+  | ok mo =>
+    obtain ⟨h1, h2⟩ := hok mo rfl
+    refine ⟨stampResponseQuery mo req.query, ?_, hcnt, ?_, ?_⟩
+    · unfold respond; rw [hroute]; simp [hn, finalMessage]
+    · rw [stamp_id, h1]
+    · rw [hstep]; simp [respOf, exitOf, stamp_id, stamp_ec, h1, h2]
+  | err c msg =>
+    refine ⟨stampResponseQuery (errorLike req c msg) req.query, ?_, hcnt, ?_, ?_⟩
+    · unfold respond; rw [hroute]; simp [hn, finalMessage]
+    · rw [stamp_id]; rfl
+    · rw [hstep]; simp [respOf, exitOf, stamp_id, stamp_ec]
+
+/-- The two replies `spawn_off_reader` builds itself are C03's `errorLike` (request id and query, the
+given code): the saturation reply and the panic reply of this model are `respOf` of those messages. -/
+theorem own_replies_are_errorLike (hi : Inv s) (req : Req) (msg : Bytes) :
+    (∀ c a, s.cap = some c → s.running.length = c → a.route = .blocking → a.notify = false →
+      a.id = req.header.id →
+      (step Gen.offFacts s (.arrive a)).outbound =
+        s.outbound ++ [respOf (errorLike req Gen.codes.resourceExhausted msg)]) ∧
+    (∀ r rest, takeRun req.header.id s.running = some (r, rest) → r.notify = false →
+      (step Gen.offFacts s (.exit req.header.id .panic)).outbound =
+        s.outbound ++ [respOf (stampResponseQuery (errorLike req Gen.codes.internalError msg) req.query)]) := by
+  constructor
+  · intro c a hc hfull hr hnn hid
+    rw [(saturation_immediate_and_inert s hi c a hc hfull hr).1]
+    simp [hnn, respOf, hid]
+  · intro r rest ht hrn
+    rw [(exit_answers_once s hi req.header.id .panic r rest ht).1, hrn]
+    simp [respOf, stamp_id, stamp_ec]
+
+/-- A notify request: C03 gives no response, and this model's exit of a notify handler queues none. -/
+theorem notify_exit_is_c03_none (hi : Inv s) (req : Req) (utf8 found : Bool) (hview howned : HOut)
+    (k : ExitKind) (r : Run) (rest : List Run) (hn : req.isNotify = true)
+    (ht : takeRun req.header.id s.running = some (r, rest)) (hrn : r.notify = true) :
+    (respond Gen.codes .wsOff req utf8 found hview howned).1 = none ∧
+    (step Gen.offFacts s (.exit req.header.id k)).outbound = s.outbound := by
+  refine ⟨C03.no_response_for_notify .wsOff req utf8 found hview howned [] hn, ?_⟩
+  rw [(exit_answers_once s hi req.header.id k r rest ht).1, hrn]; simp
+
+example : route Gen.codes ⟨⟨48+2, 0x1507, 1, 0, 0, 7, 2, 0, 1, 2, 0⟩, [47, 97], []⟩ true true = .dispatch ∧
+    (⟨⟨48+2, 0x1507, 1, 0, 0, 7, 2, 0, 1, 2, 0⟩, [47, 97], []⟩ : Req).isNotify = false := by decide
 
 end Repe.C16
